@@ -26,6 +26,24 @@ theorem runUpdFrom_gate (cfg : Cfg) (sc : Script) (ts : Int) (row : Nat) : ∀ (
     · exact recUpd_gate cfg ts i _ st e h'
     · exact b1 e h'
 
+/-- operations issued from inside `notify` are gated by the same flags (nothing refreshes the markets between `after_bar` and the loop) -/
+theorem runNotify_gate (cfg : Cfg) (sc : Script) (ts : Int) (row : Nat) : ∀ (fuel i : Nat) (st : St), OpenInv cfg ts st.ms →
+    ∀ e ∈ (runNotify sc ts row fuel i st).1, OpGate cfg ts e
+  | 0, _, _, _ => by intro e he; simp [runNotify] at he
+  | fuel + 1, i, st, hinv => by
+    unfold runNotify
+    split
+    · intro e he; cases he
+    · rename_i a _
+      obtain ⟨g0, i0⟩ := runOps_gate cfg ts .notify (sc.notify row a.tag) st hinv
+      have ih := runNotify_gate cfg sc ts row fuel (i + 1) _ i0
+      intro e he
+      simp only [List.mem_cons, List.mem_append] at he
+      rcases he with (rfl | h') | h'
+      · trivial
+      · exact g0 e h'
+      · exact ih e h'
+
 /-- every `is_open` flag shown in a bar's trace — by a refresh, by an operation's outcome, by an open callback — is the
     flag of the market's own time index at the bar's timestamp -/
 theorem barTrace_gate (cfg : Cfg) (sc : Script) (row : Nat) (ts : Int) (st : St) (price : Option Int) :
@@ -48,10 +66,12 @@ theorem barTrace_gate (cfg : Cfg) (sc : Script) (row : Nat) (ts : Int) (st : St)
   have hu : p.u = runUpdFrom sc ts row 0 cfg.markets { p.n.2 with ms := p.s2.2 } := by rw [← hp]; rfl
   obtain ⟨gu, iu⟩ := runUpdFrom_gate cfg sc ts row 0 cfg.markets { p.n.2 with ms := p.s2.2 }
   have ha : p.a = runOps ts .after (sc.after row) p.u.2 := by rw [← hp]; rfl
-  obtain ⟨ga, _⟩ := runOps_gate cfg ts .after (sc.after row) p.u.2 (by rw [hu, iu]; show OpenInv cfg ts p.s2.2; rw [hs2]; exact is2)
+  obtain ⟨ga, ia⟩ := runOps_gate cfg ts .after (sc.after row) p.u.2 (by rw [hu, iu]; show OpenInv cfg ts p.s2.2; rw [hs2]; exact is2)
+  have hnt : p.nt = runNotify sc ts row (p.a.2.cur.length + sc.fuel) 0 p.a.2 := by rw [← hp]; rfl
+  have gnt := runNotify_gate cfg sc ts row (p.a.2.cur.length + sc.fuel) 0 p.a.2 (by rw [ha]; exact ia)
   intro e he
-  simp only [BarParts.trace, List.mem_append, List.mem_cons, List.mem_map] at he
-  rcases he with ((((((((h' | rfl | h') | h') | h') | rfl | h') | h') | h') | rfl | h') | rfl | ⟨x, _, rfl⟩)
+  simp only [BarParts.trace, List.mem_append, List.mem_cons] at he
+  rcases he with ((((((((h' | rfl | h') | h') | h') | rfl | h') | h') | h') | rfl | h') | rfl | h')
   · rw [hs1] at h'; exact g1.1 e h'
   · trivial
   · rw [hb] at h'; exact gb e h'
@@ -64,7 +84,7 @@ theorem barTrace_gate (cfg : Cfg) (sc : Script) (row : Nat) (ts : Int) (st : St)
   · trivial
   · rw [ha] at h'; exact ga e h'
   · trivial
-  · trivial
+  · rw [hnt] at h'; exact gnt e h'
 
 theorem runBars_gate (cfg : Cfg) (sc : Script) : ∀ (bars : List Int) (row : Nat) (st : St),
     bars.Pairwise (· < ·) → (runBars cfg sc row bars st).2.2 = none →
